@@ -759,6 +759,41 @@ theorem bindE_eq_spec {V E} (zeros : List V) (g f : Stage V E) :
   cases h : g.run [] with
   | mk v err => cases err <;> simp
 
+theorem fmapEFn_eq_spec {V E} (g f : Stage V E) : fmapEFn g f = fmapEFnSpec g f := by
+  unfold fmapEFn fmapEFnSpec
+  cases h : g.run [] with
+  | mk v err => cases err <;> simp
+
+/-- the function returned by the emitted fmap never evaluates anything: the log stays what it was
+when fmap returned, after any number of invocations -/
+theorem fmapEFn_logAfter {V E} (g f : Stage V E) (t : Thunk V E) (h : (fmapEFn g f).fn = some t) :
+    ∀ n, t.logAfter (fmapEFn g f).log n = (fmapEFn g f).log := by
+  have hp : t.perCall = [] := by
+    unfold fmapEFn at h
+    cases hg : g.run [] with
+    | mk v err =>
+      cases err with
+      | some e => simp [hg] at h
+      | none =>
+        simp only [hg, Option.some.injEq] at h
+        rw [← h]
+  intro n
+  induction n with
+  | zero => rfl
+  | succ n ih => simp [Thunk.logAfter, ih, hp]
+
+/-- join of the function returned by fmap = the nested form `deriveJoin(deriveFmap(f, g))`, with all
+calls already made before join runs -/
+theorem joinFn_fmapEFn {V E} (zeros : List V) (g f : Stage V E) :
+    ∃ r, joinFn zeros (fmapEFn g f).fn (fmapEFn g f).err = some r ∧ r.log = [] ∧
+      (bindE zeros g f) = { res := r.res, err := r.err, log := (fmapEFn g f).log } := by
+  unfold joinFn fmapEFn bindE
+  cases hg : g.run [] with
+  | mk v err =>
+    cases err with
+    | some e => exact ⟨_, rfl, rfl, rfl⟩
+    | none => exact ⟨_, rfl, rfl, rfl⟩
+
 theorem toError_eq_spec {V E} (err : E) (f : List V → List V × Bool) (args : List V) :
     toError err f args = toErrorSpec err f args := by
   unfold toError toErrorSpec
